@@ -11,6 +11,7 @@ pub use crate::commit::{
 pub use crate::filechange::{handle_file_change_line, HandleFileChangeOutcome};
 pub use crate::limits::parse_data_size_header;
 pub use crate::opts::verif::{parse_duration, parse_max_blob_size, parse_timestamp};
+pub use crate::pipes::{build_fast_export_cmd, build_fast_import_cmd};
 pub use crate::message::{
     blob_regex, find_subslice, msg_regex, replace_all_bytes, MessageReplacer, ShortHashMapper,
 };
